@@ -55,9 +55,16 @@ vars == <<rl, wl, last, rr, rm, wr, wm, cur, out, phase>>
 SMAX == M \div 2 - 1          \* EV_SSIZE_MAX = EV_RATE_LIMIT_MAX
 SMIN == -(M \div 2)
 NMAX == NM \div 2 - 1         \* INT_MAX
-U(x)  == x % M                \* conversion to the unsigned word (the TLA+ modulus is the mathematical one)
-S(x)  == IF (x % M) > SMAX THEN (x % M) - M ELSE (x % M)     \* conversion to the signed word (two's complement)
-UN(x) == x % NM               \* conversion to unsigned / ev_uint32_t
+(* Mathematical (Euclidean) modulus, written so that the built-in operator  *)
+(* is only applied to non-negative operands: TLC and the SMT encoding       *)
+(* implement the TLA+ semantics ((-3) % 4 = 1) but the constant folder of   *)
+(* Apalache 0.58 truncates literal operands ((-3) % 4 = -3, measured), which *)
+(* matters when vectors of literals are evaluated.  With EMod all engines   *)
+(* agree.                                                                   *)
+EMod(x, m) == IF x >= 0 THEN x % m ELSE (m - ((-x) % m)) % m
+U(x)  == EMod(x, M)           \* conversion to the unsigned word
+S(x)  == IF EMod(x, M) > SMAX THEN EMod(x, M) - M ELSE EMod(x, M)     \* conversion to the signed word (two's complement)
+UN(x) == EMod(x, NM)          \* conversion to unsigned / ev_uint32_t
 Min(a, b) == IF a < b THEN a ELSE b
 
 InS(x)  == SMIN <= x /\ x <= SMAX
@@ -100,7 +107,7 @@ DirSpec(lv, mx, rt, n) == Min(mx, lv + n * rt)
 
 \* @type: (Int, Int, Int, Int, Int, Int, Int, Int) => { rl: Int, wl: Int, last: Int, ret: Int };
 UpdateSpec(lr, lw, lst, rrate, rmax, wrate, wmax, c) ==
-    LET n == (c - lst) % NM IN
+    LET n == EMod(c - lst, NM) IN
     IF n = 0 \/ n > NMAX
     THEN [rl |-> lr, wl |-> lw, last |-> lst, ret |-> 0]       \* no tick passed / time went backwards: nothing changes
     ELSE [rl |-> DirSpec(lr, rmax, rrate, n), wl |-> DirSpec(lw, wmax, wrate, n), last |-> c, ret |-> 1]
@@ -112,7 +119,7 @@ UpdateSpec(lr, lw, lst, rrate, rmax, wrate, wmax, c) ==
 MsecC(sec, usec)      == U(U(U(sec) * KMS) + U(usec \div KMS))
 TickC(sec, usec, mpt) == UN(MsecC(sec, usec) \div mpt)
 MsecSpec(sec, usec)      == sec * KMS + usec \div KMS
-TickSpec(sec, usec, mpt) == (MsecSpec(sec, usec) \div mpt) % NM
+TickSpec(sec, usec, mpt) == EMod(MsecSpec(sec, usec) \div mpt, NM)
 \* domain: a normalised, non-negative timeval whose millisecond count fits the word
 TickDomain(sec, usec) == 0 <= sec /\ sec <= (M - KMS) \div KMS /\ 0 <= usec /\ usec < KMS * KMS
 
@@ -131,7 +138,7 @@ TickDiffExact(a, b) ==
 (* real widths.                                                            *)
 INTMAX32 == 2147483647
 USECMASK == 1048576            \* COMMON_TIMEOUT_MICROSECONDS_MASK + 1 = 2^20
-MptC(sec, usec) == UN(sec * 1000) + ((usec % USECMASK) \div 1000)   \* (unsigned)(sec*1000) + (usec & mask)/1000
+MptC(sec, usec) == UN(sec * 1000) + (EMod(usec, USECMASK) \div 1000)   \* (unsigned)(sec*1000) + (usec & mask)/1000
 \* @type: (Int, Int, Int, Int, Bool, Int, Int) => { ok: Bool, mpt: Int };
 CfgNewC(a_rr, a_rb, a_wr, a_wb, hasTv, sec, usec) ==
     LET s == IF hasTv THEN sec ELSE 1
@@ -159,6 +166,22 @@ CfgNewSpec(a_rr, a_rb, a_wr, a_wb, hasTv, sec, usec) ==
 CfgDomain(a_rr, a_rb, a_wr, a_wb, sec, usec) ==
     /\ InU(a_rr) /\ InU(a_rb) /\ InU(a_wr) /\ InU(a_wb)      \* any size_t
     /\ InS(sec) /\ 0 <= usec /\ usec < 1000000               \* any time_t, normalised microseconds
+
+-----------------------------------------------------------------------------
+(* Vector predicates: one observation of the compiled function against the *)
+(* property.  checks/C21.py generates a module with one definition per     *)
+(* vector (V1 == VecUpd(...), ...) and Apalache evaluates their            *)
+(* conjunction in a single state.                                          *)
+VecUpd(lr, lw, lst, rrate, rmax, wrate, wmax, c, o_rl, o_wl, o_last, o_ret) ==
+    UpdateSpec(lr, lw, lst, rrate, rmax, wrate, wmax, c) = [rl |-> o_rl, wl |-> o_wl, last |-> o_last, ret |-> o_ret]
+VecTick(sec, usec, mpt, o) == TickDomain(sec, usec) => (TickSpec(sec, usec, mpt) = o)
+\* o_ok = 1 and the stored fields when a configuration was returned, o_ok = 0 (fields 0) for NULL
+VecCfg(a_rr, a_rb, a_wr, a_wb, hasTv, sec, usec, o_ok, o_rr, o_rm, o_wr, o_wm, o_mpt, o_sec, o_usec) ==
+    LET e == CfgNewSpec(a_rr, a_rb, a_wr, a_wb, hasTv = 1, sec, usec) IN
+    CfgDomain(a_rr, a_rb, a_wr, a_wb, sec, usec) =>
+        /\ (o_ok = 1) = e.ok
+        /\ e.ok => /\ o_rr = a_rr /\ o_rm = a_rb /\ o_wr = a_wr /\ o_wm = a_wb /\ o_mpt = e.mpt
+                   /\ o_sec = (IF hasTv = 1 THEN sec ELSE 1) /\ o_usec = (IF hasTv = 1 THEN usec ELSE 0)
 
 -----------------------------------------------------------------------------
 (* State machine used for the one-step checks: Init chooses an arbitrary   *)
